@@ -112,7 +112,8 @@ func Harness_C16_Indent() {
 
 // bodies built from names in scope: ill-typed and self-applied definitions
 func Harness_C16_Bodies() {
-	names := []string{"f", "x", "y", "1", "\"s\"", "g"}
+	names := []string{"f", "x", "1", "g", "y", "\"s\""}
+	names = names[:envInt("VERIF_BODYNAMES", 4)]
 	a := names[verifChoice("a", len(names))]
 	b := names[verifChoice("b", len(names))]
 	c := names[verifChoice("c", len(names))]
@@ -129,5 +130,25 @@ func Harness_C16_Bodies() {
 		src += "(" + a + ", " + b + ") |> " + c
 	}
 	src += "\n"
+	c16RunDamaged(src)
+}
+
+// arbitrary bytes inside a program: K symbolic bytes (any value) at one of
+// several places of a valid program; the run must terminate with output or a
+// diagnostic whatever the bytes are
+func Harness_C16_SymbolicBytes() {
+	k := envInt("VERIF_SYMBYTES", 2)
+	s := verifString("bytes", k)
+	var src string
+	switch verifChoice("place", 4) {
+	case 0: // a function body
+		src = "package main\n\nlet f (a:int) =\n  " + s + "\n"
+	case 1: // after an operator
+		src = "package main\n\nlet f (a:int) =\n  a + " + s + "\n"
+	case 2: // inside a type definition
+		src = "package main\n\ntype R = {X: " + s + "}\n"
+	case 3: // at top level, before a definition
+		src = "package main\n" + s + "\nlet f (a:int) =\n  a\n"
+	}
 	c16RunDamaged(src)
 }
